@@ -239,6 +239,10 @@ var c03Scenarios = []c03S{
 		}},
 	{"a keyword default is evaluated in the scope of each evaluation of the literal", `mk := {|n| {|x, step: n| x + step}}; f1 := mk(a); f2 := mk(b); om := {|n| {get: m{|k: n| k}}}; o1 := om(a); o2 := om(b); [f1(0), f2(0), f1(0), f2(0, step: 5), o1.get, o2.get]`,
 		func(r object.PanObject, a, b int64) bool { return arrOfInts(r, a, b, a, 5, a, b) }},
+	{"\\N is the N-th argument for every N (one and two digits)", `f := {|| [\1, \2, \3, \4, \5, \6, \7, \8, \9, \10, \11, \12, \0.len]}; f(a, 2, 3, 4, 5, 6, 7, 8, 9, 10, 11, b)`,
+		func(r object.PanObject, a, b int64) bool { return arrOfInts(r, a, 2, 3, 4, 5, 6, 7, 8, 9, 10, 11, b, 12) }},
+	{"named parameters and \\N agree for a call with many arguments", `g := {|p1, p2, p3, p4, p5, p6, p7, p8, p9, p10, p11| [p10, \10, p11, \11, p9, \9]}; g(1, 2, 3, 4, 5, 6, 7, 8, a, b, 11)`,
+		func(r object.PanObject, a, b int64) bool { return arrOfInts(r, b, b, 11, 11, a, a) }},
 	{"a method body sees its defining scope, not the receiver's properties as variables", `v := a; o := {v: b, get: m{|| v}}; o.get`,
 		func(r object.PanObject, a, b int64) bool { return isInt(r, a) }},
 }
